@@ -34,7 +34,9 @@ CLASSES = (["ctype-" + t for t in domains.COMPOSE_TYPES] + ["rtype-" + t for t i
 CLASS_FLOORS = dict((c, 10) for c in CLASSES)
 CLASS_FLOORS.update({"legacy-0.0": 5, "legacy-0.1": 5, "legacy-0.2": 5})
 UNKNOWN_SUFFIXES = [".foo", ".c", ".production", ".x", ".nn", ".dd", ".tt", ".nightl", ".nightlyy", ".tes", ".cii",
-                    ".development", ".dev", ".i", ".z"]
+                    ".development", ".dev", ".i", ".z", ".development", ".devel", ".dev", ".prod", ".p", ".release", ".rc", ".continuous", ".integration", ".testing", ".nightlies",
+                    # every lowercase word of one or two letters that is not documented
+                    ] + ["." + a + b for a in "abcdefghijklmnopqrstuvwxyz" for b in [""] + list("abcdefghijklmnopqrstuvwxyz") if a + b not in ("n", "t", "d", "ci")]
 
 
 def plan(tier):
@@ -61,7 +63,9 @@ def gen_case(rng, force=None):
     elif vkind == "dotted":
         version = text.numeric_version(rng, rng.randint(2, 3))
     elif vkind == "freeform":
-        version = rng.choice(["Rawhide", "rawhide", "Bikeshed", "x20240101", "r.12345678", "v20160622.n.1"])
+        version = rng.choice(["Rawhide", "rawhide", "Bikeshed", "x20240101", "r.12345678", "v20160622.n.1",
+                              # endings a careless suffix strip would eat ('-ga', '-updates' ...)
+                              "Beta", "Alpha", "omega", "testing", "saga-", "x-g-a", "Ga", "beta-ga", "g", "a"])
     elif vkind == "8run":
         version = str(rng.choice([20240101, 12345678, 99999999, 10000000, rng.randint(10 ** 7, 10 ** 8 - 1)]))
     elif vkind == "12run":
